@@ -342,27 +342,11 @@ def _hook_worker(args):
     return {"trace": trace_path, "steps": nsteps, "crashes": ncrash, "ubsan": sorted(ub), "lines": line_no}
 
 
-# Client ids are whatever the server chooses (ircu: the socket number): every second history has the model's small ids
-# moved to another part of the int range - across 1024, 4096 and 65536, and at the top of the range.
-ID_MAPS = [0, 1016, 0, 65528, 0, 2147483647 - 40, 0, 4090, 0, 1020]
-
-
 def shift_ids(events, k):
-    off = ID_MAPS[k % len(ID_MAPS)]
-    return [map_ids(e, off) for e in events] if off else events
+    return R.shift_ids(events, k, every=2)
 
 
-def map_ids(e, off):
-    if not off:
-        return e
-    e = dict(e)
-    if "id" in e and e["id"] >= 0:
-        e["id"] += off
-    if e.get("e") == "X":
-        m = D._TAG.match(e.get("tag", ""))
-        if m:
-            e["tag"] = "%x_%s" % (int(m.group(1), 16) + off, m.group(2))
-    return e
+map_ids = R.map_ids
 
 
 def with_reloads(events, svcs, timeout_on, rng, every):
